@@ -35,9 +35,8 @@ type step struct {
 }
 
 type session struct {
-	Name   string `json:"name"`
-	Steps  []step `json:"steps"`
-	Doctor string `json:"doctor"` // binding self-test: a byte-level deviation applied to the recorded bytes
+	Name  string `json:"name"`
+	Steps []step `json:"steps"`
 }
 
 // appMsg is what the application handed to the writer.
@@ -72,6 +71,7 @@ type chunkRec struct {
 	Sid  int64  `json:"sid"`
 	Pay  int    `json:"pay"`
 	Pm   bool   `json:"pm"`
+	Pmn  int    `json:"pmn"` // leading payload bytes that match (= pay when pm)
 	Mi   int    `json:"mi"`
 	Off  int    `json:"off"`
 	Rep  int    `json:"rep"`
@@ -143,24 +143,27 @@ func write(c *rp.Ctx, s session, nextID *int) (app []appMsg, wire []byte, err er
 }
 
 // records tokenises the wire, compares every chunk's payload with the slice of the message the application
-// wrote, and run-length encodes runs of identical continuation chunks (same header tokens, same payload size,
+// wrote, and run-length encodes runs of identical continuation chunks (never a first chunk; same header tokens, same payload size,
 // consecutive offsets, payload matching): a 65536-byte message at chunk size 1 is three records.
 func records(app []appMsg, wire []byte) (recs []interface{}, nchunks int) {
 	var last *chunkRec
 	jk := tokenize(wire, func(t token) {
 		nchunks++
-		pm := false
+		pm, pmn := false, 0
 		if t.Mi >= 1 && t.Mi <= len(app) {
 			b := app[t.Mi-1].body
 			pm = t.Off+t.Pay <= len(b) && bytes.Equal(b[t.Off:t.Off+t.Pay], t.Body)
+			for pmn < t.Pay && t.Off+pmn < len(b) && b[t.Off+pmn] == t.Body[pmn] {
+				pmn++
+			}
 		}
 		sid := t.Sid
 		if sid > 0x7fffffff {
 			sid = -2 // not representable in TLC; no application message has it
 		}
 		r := &chunkRec{Ev: "chunk", Fmt: t.Fmt, Cid: t.Cid, Form: t.Form, Tsf: t.Tsf, Ext: t.Ext, Top: t.Top, Len: t.Len, Type: t.Type,
-			Sid: sid, Pay: t.Pay, Pm: pm, Mi: t.Mi, Off: t.Off, Rep: 1, At: t.At}
-		if last != nil && pm && last.Pm && r.Fmt == 3 && last.Fmt == 3 && r.Cid == last.Cid && r.Form == last.Form && r.Ext == last.Ext &&
+			Sid: sid, Pay: t.Pay, Pm: pm, Pmn: pmn, Mi: t.Mi, Off: t.Off, Rep: 1, At: t.At}
+		if last != nil && pm && last.Pm && r.Fmt == 3 && last.Fmt == 3 && last.Off > 0 && r.Cid == last.Cid && r.Form == last.Form && r.Ext == last.Ext &&
 			r.Top == last.Top && r.Pay == last.Pay && r.Pay > 0 && r.Mi == last.Mi && r.Off == last.Off+last.Rep*last.Pay {
 			last.Rep++
 			return
@@ -172,6 +175,53 @@ func records(app []appMsg, wire []byte) (recs []interface{}, nchunks int) {
 		recs = append(recs, &junkRec{Ev: "junk", At: jk.At, N: jk.N, Why: jk.Why})
 	}
 	return
+}
+
+// traceWriter appends sessions to <dir>/trace.ndjson.
+type traceWriter struct {
+	f    *os.File
+	w    *bufio.Writer
+	enc  *json.Encoder
+	line int
+}
+
+func newTraceWriter(dir string) *traceWriter {
+	f, err := os.Create(filepath.Join(dir, "trace.ndjson"))
+	if err != nil {
+		rp.Bug("%v", err)
+	}
+	w := bufio.NewWriterSize(f, 1<<20)
+	return &traceWriter{f: f, w: w, enc: json.NewEncoder(w)}
+}
+
+func (t *traceWriter) put(v interface{}) {
+	if err := t.enc.Encode(v); err != nil {
+		rp.Bug("%v", err)
+	}
+	t.line++
+}
+
+// session writes reset, the chunk records of wire, end.
+func (t *traceWriter) session(name string, i int, app []appMsg, wire []byte) sessInfo {
+	if app == nil {
+		app = []appMsg{}
+	}
+	recs, nchunks := records(app, wire)
+	info := sessInfo{First: t.line + 1, Chunks: nchunks, Bytes: len(wire), Msgs: len(app)}
+	t.put(&resetRec{Ev: "reset", Name: name, Case: i, Msgs: app})
+	for _, rec := range recs {
+		t.put(rec)
+	}
+	t.put(&endRec{Ev: "end", Bytes: len(wire)})
+	info.Last = t.line
+	return info
+}
+
+func (t *traceWriter) close() {
+	if err := t.w.Flush(); err != nil {
+		rp.Bug("%v", err)
+	}
+	t.f.Close()
 }
 
 type sessInfo struct {
@@ -187,19 +237,7 @@ func init() {
 		if c.Dir == "" {
 			rp.Bug("record needs -dir")
 		}
-		f, err := os.Create(filepath.Join(c.Dir, "trace.ndjson"))
-		if err != nil {
-			rp.Bug("%v", err)
-		}
-		w := bufio.NewWriterSize(f, 1<<20)
-		enc := json.NewEncoder(w)
-		line := 0
-		put := func(v interface{}) {
-			if err := enc.Encode(v); err != nil {
-				rp.Bug("%v", err)
-			}
-			line++
-		}
+		tw := newTraceWriter(c.Dir)
 		nextID := 0
 		var res []rp.Result
 		for i, raw := range cases {
@@ -220,28 +258,11 @@ func init() {
 				if werr != nil {
 					return rp.Result{I: i, OK: false, What: fmt.Sprintf("session %s: the writer refused a message: %v", s.Name, werr), Deviation: "X03/write-error"}
 				}
-				if s.Doctor != "" {
-					wire = doctor(s, wire)
-				}
-				if app == nil {
-					app = []appMsg{}
-				}
-				recs, nchunks := records(app, wire)
-				info := sessInfo{First: line + 1, Chunks: nchunks, Bytes: len(wire), Msgs: len(app)}
-				put(&resetRec{Ev: "reset", Name: s.Name, Case: i, Msgs: app})
-				for _, rec := range recs {
-					put(rec)
-				}
-				put(&endRec{Ev: "end", Bytes: len(wire)})
-				info.Last = line
-				return rp.Result{I: i, OK: true, Info: info, Nontriv: true}
+				return rp.Result{I: i, OK: true, Info: tw.session(s.Name, i, app, wire), Nontriv: true}
 			}()
 			res = append(res, r)
 		}
-		if err := w.Flush(); err != nil {
-			rp.Bug("%v", err)
-		}
-		f.Close()
+		tw.close()
 		return res
 	}
 }
